@@ -130,10 +130,12 @@ var (
 func SettingCanHold(d *eqv.D, s Setting) bool {
 	ok := true
 	var walk func(d *eqv.D)
+	seen := map[*eqv.D]bool{}
 	walk = func(d *eqv.D) {
-		if d == nil || !ok {
+		if d == nil || !ok || seen[d] {
 			return
 		}
+		seen[d] = true
 		switch d.K {
 		case eqv.KInt:
 			switch s.Long {
